@@ -5,7 +5,9 @@ Core Lean only (linked into the driver).
 Occupations, energies, irreps are lists of exact rationals; `coeffs` carries one scalar per
 COLUMN (orbital): only the column count takes part in validation and the alpha/beta views are
 column slices.  attrs semantics: converters + validators in `__init__` on the NEW object in field
-order, on assignment on the OLD object.  Numpy semantics transcribed: 1-D broadcasting of
+order, on assignment on the OLD object.  `kind`, `norba`, `norbb` carry a second validator
+(`validate_change`) that, when the assigned value differs from the stored one, re-runs ALL validators on
+a modified copy (`attrs.evolve`), see `reassign`.  Numpy semantics transcribed: 1-D broadcasting of
 `a + b`, broadcasting of a slice assignment, `astype(int)` integer test, `clip`.
 -/
 namespace Iodata.Orb
@@ -107,8 +109,9 @@ def firstErr : List (Option Err) → Option Err
 /-- field order and validators of the attrs class, as the model assumes them (compared with the
 source by `Iodata/Gen/OrbitalFields.lean`) -/
 def moFieldSpec : List (String × String) :=
-  [("kind", "in_(['restricted','unrestricted','generalized'])"), ("norba", "validate_norbab"),
-   ("norbb", "validate_norbab"), ("occs", "optional(validate_shape('norb'))"),
+  [("kind", "[in_(['restricted','unrestricted','generalized']),validate_change]"),
+   ("norba", "[validate_norbab,validate_change]"),
+   ("norbb", "[validate_norbab,validate_change]"), ("occs", "optional(validate_shape('norb'))"),
    ("coeffs", "optional(validate_shape(None,'norb'))"), ("energies", "optional(validate_shape('norb'))"),
    ("irreps", "optional(validate_shape('norb'))"),
    ("occs_aminusb", "and_(optional(validate_shape('norb')),validate_occs_aminusb)")]
@@ -290,11 +293,49 @@ def setOccsb (m : MO) (v : List Rat) : MO × Option Err :=
       | some t => ({ m with occs := some (o.take k ++ t) }, none)
       | none => (m, some .valueError)
 
+/-! ### re-assignment of `kind` / `norba` / `norbb`
+
+`mo.<attr> = value` runs the attribute's validator list on the OLD object: first the attribute's own
+validator (`own`), then `validate_change`:
+
+    if getattr(mo, attribute.name) != value:
+        attrs.evolve(mo, **{attribute.name: value})
+
+i.e. unless the value is the stored one (`same`), `__init__` of a copy `m'` carrying the new value runs
+every validator in field order (`initChecks m'`; inside that `__init__` `validate_change` itself is a
+no-op because the copy already holds the value).  The first exception propagates and the object is
+unchanged; otherwise the value is stored. -/
+
+def reassign (m m' : MO) (own : Option Err) (same : Bool) : MO × Option Err :=
+  match own with
+  | some e => (m, some e)
+  | none =>
+    if same then (m', none)
+    else
+      match firstErr (initChecks m') with
+      | some e => (m, some e)
+      | none => (m', none)
+
+/-- `mo.kind = k` -/
+def setKind (m : MO) (k : Kind) : MO × Option Err :=
+  reassign m { m with kind := k } (vKind k) (m.kind == k)
+
+/-- `mo.norba = v` -/
+def setNorba (m : MO) (v : Option Nat) : MO × Option Err :=
+  reassign m { m with norba := v } (vNorbab m true v) (m.norba == v)
+
+/-- `mo.norbb = v` -/
+def setNorbb (m : MO) (v : Option Nat) : MO × Option Err :=
+  reassign m { m with norbb := v } (vNorbab m false v) (m.norbb == v)
+
 inductive Op where
   | construct (a : MO)
   | set (f : Fld) (v : Option (List Rat))
   | setOccsa (v : List Rat)
   | setOccsb (v : List Rat)
+  | setKind (k : Kind)
+  | setNorba (v : Option Nat)
+  | setNorbb (v : Option Nat)
   deriving DecidableEq, Repr
 
 def step (m : MO) : Op → MO × Option Err
@@ -305,6 +346,9 @@ def step (m : MO) : Op → MO × Option Err
   | .set f v => store m f v
   | .setOccsa v => setOccsa m v
   | .setOccsb v => setOccsb m v
+  | .setKind k => setKind m k
+  | .setNorba v => setNorba m v
+  | .setNorbb v => setNorbb m v
 
 def run (m : MO) (ops : List Op) : MO := ops.foldl (fun m op => (step m op).1) m
 
